@@ -13,6 +13,34 @@ import (
 	"golang.org/x/tools/go/ssa"
 )
 
+// smallBounded: v is provably a small number (|v| < 2^16): a constant, a math/bits count, a value masked to at
+// most 15 bits, or a sum/difference of two such values.
+func smallBounded(v ssa.Value, depth int) bool {
+	if depth > 6 {
+		return false
+	}
+	if k, ok := constInt64(v); ok {
+		return k > -(1<<15) && k < 1<<15
+	}
+	if _, ok := asCall(v, "math/bits.*"); ok {
+		if isIntType(v.Type()) {
+			return true
+		}
+	}
+	if _, j, ok := asLowMask(v); ok && j <= 15 {
+		return true
+	}
+	switch x := v.(type) {
+	case *ssa.Convert:
+		return isIntType(x.X.Type()) && smallBounded(x.X, depth+1)
+	case *ssa.BinOp:
+		if x.Op == token.ADD || x.Op == token.SUB {
+			return smallBounded(x.X, depth+1) && smallBounded(x.Y, depth+1)
+		}
+	}
+	return false
+}
+
 func ReportIdxWidth(w *World, r *Report, names ...string) {
 	r.Rule("R-IDXWIDTH", "no index, slice bound or allocation length is derived from a wider integer (int, int64, len) through a conversion to a narrower integer type: positions beyond 2^31 must not wrap")
 	for _, n := range names {
@@ -38,7 +66,7 @@ func ReportIdxWidth(w *World, r *Report, names ...string) {
 								return nil
 							}
 							// results of math/bits (<= 64) and the upper half of a 64-bit word fit any integer type
-							if _, ok := asCall(x.X, "math/bits.*"); ok {
+							if smallBounded(x.X, 0) {
 								return nil
 							}
 							if _, k, ok := asBinConst(x.X, token.SHR); ok && k >= 32 {
